@@ -63,6 +63,11 @@ class SleepRecorder:
         self.slept = []
 
     def sleep(self, s):
+        # mimic the argument checks of the real time.sleep()
+        if s < 0:
+            raise ValueError("sleep length must be non-negative")
+        if s > 9223372036.0:
+            raise OverflowError("timestamp out of range for platform time_t")
         self.slept.append(s)
 
     def __getattr__(self, name):
